@@ -123,6 +123,7 @@ type frame struct {
 	order  []*ssa.BasicBlock
 	relCache map[*ssa.BasicBlock][]Ref
 	curRC  Ref
+	curBlock *ssa.BasicBlock
 }
 
 func (g *Gate) eval(fn *ssa.Function, args []*E, bindings []*E, m *mem, base Ref) *Summary {
@@ -238,8 +239,11 @@ func (f *frame) block(b *ssa.BasicBlock) {
 		f.havocLoopMemory(b)
 	}
 	f.curRC = rc
+	f.curBlock = b
 	for _, in := range b.Instrs {
-		f.instr(b, in, rc)
+		// an inlined call narrows the reach condition of the rest of the block
+		// to "the callee returned" (see call)
+		f.instr(b, in, f.curRC)
 	}
 }
 
@@ -621,7 +625,20 @@ func (f *frame) call(in ssa.Instruction, c *ssa.CallCommon, rc Ref, typ types.Ty
 		if sub != nil {
 			f.sum.Effects = append(f.sum.Effects, sub.Effects...)
 			f.sum.Panics = u.bdd.Or(f.sum.Panics, sub.Panics)
-			return f.retValue(sub, rc, typ)
+			v := f.retValue(sub, rc, typ)
+			// execution continues only if the callee returned through one of
+			// its return sites (its loops are abstracted, so this is not
+			// implied by rc alone)
+			if len(sub.Rets) > 0 && f.curBlock != nil && in.Block() == f.curBlock {
+				exit := False
+				for _, r := range sub.Rets {
+					exit = u.bdd.Or(exit, r.Cond)
+				}
+				exit = u.bdd.And(exit, rc)
+				f.curRC = exit
+				f.rc[f.curBlock] = exit
+			}
+			return v
 		}
 	}
 	name := calleeName(callee)
@@ -963,6 +980,31 @@ func allocIsLocal(a *ssa.Alloc) bool {
 }
 
 func closureKeepsLocal(mc *ssa.MakeClosure, cell ssa.Value) bool {
+	// a closure that only ever loads the cell cannot change it, wherever the
+	// closure value travels
+	fn0 := mc.Fn.(*ssa.Function)
+	readOnly := true
+	for i, b := range mc.Bindings {
+		if b != cell {
+			continue
+		}
+		if rs := fn0.FreeVars[i].Referrers(); rs != nil {
+			for _, r := range *rs {
+				switch r := r.(type) {
+				case *ssa.UnOp:
+					if r.Op != token.MUL {
+						readOnly = false
+					}
+				case *ssa.DebugRef:
+				default:
+					readOnly = false
+				}
+			}
+		}
+	}
+	if readOnly {
+		return true
+	}
 	if rs := mc.Referrers(); rs != nil {
 		for _, r := range *rs {
 			switch r := r.(type) {
